@@ -8,8 +8,14 @@ REAL_VS_STUB = {
     "kernel_fs": "real tmpfs; every mutating libc call on the data directory journalled; durability semantics = harness crash model",
     "simulated": "clock (clock_gettime/gettimeofday/time), sleeps (nanosleep/clock_nanosleep), OS randomness (getrandom)",
     "absent": "network transport, TLS, HTTP listener, signal handling",
-    "stub": "server main() wiring (auth interceptor closure, start-up recount, recover-or-fresh decision) is copied into the harness",
+    "stub": "server main() wiring (auth interceptor closure, start-up recount, recover-or-fresh decision) is copied into the harness (fallback mode: the build could not cut these lines out of main())",
 }
+
+# when vsim's build script could cut the lines out of main() (the normal case; `vsim mode-info` says which)
+EXTRACTED_FROM_MAIN = ("the auth interceptor closure, the start-up recount of per-tenant vectors and the recover-or-fresh start of the engine are the "
+                       "working tree's own lines of main(), cut out textually at build time and wrapped into functions (sim/vsim/build.rs)")
+STUB_WHEN_EXTRACTED = ("the rest of main(): configuration loading, construction of TieredEngineConfig / cache strategy / rate limiter / usage tracker from the "
+                       "configuration, ServerState wiring, background tasks (flush, training, usage export), listeners")
 
 COMMON_ASSUMPTIONS = [
     "seeded search samples histories/schedules; a clean batch is evidence, not proof",
@@ -62,14 +68,16 @@ CHECKS = {
         "rule": "data directories come from seeded histories (4-22 ops quick, 4-40 thorough; several snapshots, rotated and compacted segments, restarts), cleanly "
                 "stopped; for every file the structural damage catalogue is enumerated completely (WAL: magic, each frame's length/payload/CRC/doc-id bytes, truncation at "
                 "every frame boundary +-1 of non-newest segments; snapshot: magic, size, version, counts, dimension, distance, last_wal_seq, CRC, truncations; MANIFEST: "
-                "structural characters, truncations; plus 3 PRNG flips per file and deletion). evaluations = damaged directories on which the real strict recovery ran. "
+                "structural characters, truncations; plus 3 PRNG flips per file and deletion). Server rows: every removed file is also judged through the server's own start-up decision "
+                "(main()'s recover-or-fresh lines, cut out of the working tree at build time; strict recovery, no fresh start after a failed recovery), which must refuse or serve exactly the pre-damage collection. "
+                "evaluations = damaged directories on which the real strict recovery / the server's start-up decision ran. "
                 "distinct_nontrivial = distinct (directory digest x file role x structural field) combinations.",
         "assumptions": [
             "truncation of the newest log segment is excluded (crash case of C01)",
             "a start-up that errors, panics or aborts the process (absurd allocation; run in a forked child) counts as refused",
-            "server row (MANIFEST missing => fresh start) is not covered by this engine-level check",
+            "server rows cover removed files only (for flips and truncations the server takes the same TieredEngine::recover path as the engine-level rows); configuration loading and the rest of main() are not run",
         ],
-        "expected_probes": ["directories_with_several_snapshots", "directories_with_several_segments"],
+        "expected_probes": ["directories_with_several_snapshots", "directories_with_several_segments", "server_startup_on_directory_with_removed_file"],
         "tiers": {"quick": {"runs_per_worker": 100000, "budget_s": 40}, "thorough": {"runs_per_worker": 1000000, "budget_s": 600}},
         "level_text": "Every single fault of a structural catalogue is enumerated on each sampled data directory and the real strict recovery is run on the damaged copy; the engine's own readers are then queried to name the mechanism.",
         "level_note": "trusted base: catalogue completeness for the on-disk formats (parsed by the harness), the reference map; histories sampled, faults enumerated per directory",
@@ -261,7 +269,7 @@ CHECKS = {
                 "(3) after every step the canonical documents (cold-tier scan, full metadata) equal the union of the tenant models with server-owned keys = owner identity and insert-time namespace; (4) calls without a valid enabled key answer UNAUTHENTICATED with no body and change nothing; /usage: 401 without key, 403 for scope=all, "
                 "own report mentions no other tenant; (5) each tenant's projection re-run alone in a fresh server: every answer must be equal, except search answers that differ only by a pick among the tenant's own equally distant documents (own-only candidate reference). "
                 "evaluations = steps executed in interleaved worlds. distinct_nontrivial = distinct digests of the interleaved answer sequence.",
-        "assumptions": ["the auth interceptor closure, start-up recount and recover-or-fresh decision are copies of main() (vsim/src/server_harness.rs); a change to those lines in main() is not seen",
+        "assumptions": ["the auth interceptor closure, start-up recount and recover-or-fresh start are main()'s own lines, cut out of the working tree at build time (sim/vsim/build.rs); if they stop compiling inside the harness the driver prints a WARN line and falls back to the hand copy in vsim/src/server_harness.rs (evidence real_vs_stub says which ran); the rest of main() is not run",
                         "TLS, HTTP/2 framing and the TCP listener are not exercised: requests enter at the tower Service boundary with hand-framed gRPC messages",
                         "whether a filter on a reserved key may select the caller's own documents is not judged (the model evaluates filters over the full server-side metadata of the caller's own documents)"],
         "expected_probes": ["same_local_id_live_for_two_tenants", "insert_with_spoofed_reserved_key", "update_with_spoofed_reserved_key_applied", "search_served_from_query_cache", "call_without_valid_enabled_key", "runs_with_restart", "search_differs_within_tie_freedom", "small_index_capacity_runs", "histories_with_index_full_refusals", "runs_with_a_rotated_second_key", "runs_with_a_tenant_added_at_restart"],
@@ -279,7 +287,7 @@ CHECKS = {
                 "odd runs: 0-6 sequential steps, then 2-3 caller threads x 1-2 RPCs (Insert, Delete, BulkInsert, BulkLoadHnsw, BatchDelete ids/filter) mostly on one id, 4 seeded schedules (random walk, sticky, PCT, bounded preemption) per program. "
                 "Invariant after every sequential RPC, after every restart and after the concurrent tail, for every tenant: server quota counter == number of canonical documents carrying the tenant's index (cold-tier ground truth); live <= max_vectors; "
                 "a single Insert answered RESOURCE_EXHAUSTED while the tenant was below its limit is a violation. evaluations = RPCs executed. distinct_nontrivial = distinct digests of (status codes, counter trajectory, decision trace).",
-        "assumptions": ["the start-up recount is a copy of the lines in main() (vsim/src/server_harness.rs)", "/usage vector_count is not judged (the usage tracker is not restored by the harness at start-up)",
+        "assumptions": ["the start-up recount is main()'s own text cut out at build time (hand copy in vsim/src/server_harness.rs only as a fallback, see evidence real_vs_stub)", "/usage vector_count is not judged (the usage tracker is not restored by the harness at start-up)",
                         "rayon worker threads inside bulk loads are not scheduled by E2 (they take no engine lock)"],
         "expected_probes": ["rpc_issued_at_the_limit", "refused_resource_exhausted", "bulk_batch_with_duplicate_ids", "bulk_load_partial_failure", "bulk_insert_partial_failure", "insert_failed_in_engine_after_reservation", "restart_recount_with_live_documents", "concurrent_rows", "rpc_with_storage_fault_fired", "rpc_failed_under_storage_fault"],
         "tiers": {"quick": {"runs_per_worker": 1000000, "budget_s": 30}, "thorough": {"runs_per_worker": 10000000, "budget_s": 900}},
